@@ -9,13 +9,15 @@ correspondence: structural specs of both real slivers (read back from the object
 oracle: what the edit script says must be reported (never looks at the model).
 """
 import copy
+import itertools
 import json
 import os
 
 from core import LeanDriver, err_kind, canon, CORPUS_DIR
+from gen import diffcfg
 
 ID = "C17"
-GENERATORS = []
+GENERATORS = [diffcfg.generate]
 LEAN_MODULES = ["FimVerif.Proofs.C17"]
 P = "FimVerif.C17."
 THEOREMS = [P + t for t in (
@@ -23,7 +25,17 @@ THEOREMS = [P + t for t in (
     "iface_added_removed_dual", "svc_added_removed_dual", "node_added_removed_dual",
     "prop_diff_spec", "iface_diff_spec", "iface_flag_spec", "svc_diff_spec", "comp_flag_spec", "node_diff_spec",
     "iface_diff_none_iff", "svc_diff_none_iff", "node_diff_none_iff",
-    "props_edit_exact", "dict_edit_exact", "iface_diff_exact", "svc_diff_exact", "node_diff_exact")]
+    "props_edit_exact", "dict_edit_exact", "iface_diff_exact", "svc_diff_exact", "node_diff_exact",
+    # the extracted table (gen/diffcfg.py -> Generated/DiffCfg.lean) and the table-driven model the driver runs
+    "table_good", "flag_values_decodable", "table_model_eq", "generated_model_eq",
+    # modified sets agree in both directions
+    "prop_diff_symm", "iface_modified_symm", "svc_modified_symm", "node_modified_symm", "svc_modified_symm_counterexample",
+    # blind spots of NodeSliver.diff, exactly
+    "node_diff_complete_service_subtree_counterexample", "node_diff_complete_non_smartnic_counterexample",
+    "node_diff_complete_partial",
+    # corner cases and hypotheses
+    "first_sub_interface_flagged", "rename_reported_as_remove_and_add", "none_info_is_empty_info",
+    "dict_keys_unique_invariant", "pair_ok_of_ok", "node_diff_kind_collision_counterexample")]
 TRUSTED_BASE = [
     "Model/Diff.lean mirrors by hand the control flow of BaseSliver.prop_diff/_dict_diff/_dict_common, InterfaceSliver.diff, "
     "NetworkServiceSliver.diff, NodeSliver.diff (which dictionaries are compared with which, the None/not-None tests on the *Info "
@@ -181,13 +193,35 @@ def wire_props(sl):
             None if ud is None else canon_ud(ud._data)]
 
 
+def type_name(sl):
+    """name of the enum member get_type() returns ('' when no type is set)"""
+    t = sl.get_type()
+    return "" if t is None else t.name
+
+
+def resolve_kinds(w, cfg):
+    """the shape the Lean model hands a tree back in: type names replaced by 'is one of the kinds the method descends below'
+    (the kinds are the ones of the extracted table, asked from the driver - never from the extractor's report)"""
+    if isinstance(w, list):
+        return [resolve_kinds(x, cfg) for x in w]
+    if not isinstance(w, dict):
+        return w
+    out = {k: resolve_kinds(v, cfg) for k, v in w.items() if k != "t"}
+    if "t" in w:
+        if "svcs" in w:
+            out["s"] = w["t"] in cfg["compKinds"]
+        else:
+            out["d"] = w["t"] in cfg["ifaceKinds"]
+    return out
+
+
 def wire_leaf(i):
     return {"n": i.resource_name, "p": wire_props(i)}
 
 
 def wire_iface(i):
     r = R.load()
-    return {"n": i.resource_name, "p": wire_props(i), "d": i.resource_type == r.InterfaceType.DedicatedPort,
+    return {"n": i.resource_name, "p": wire_props(i), "t": type_name(i),
             "subs": None if i.interface_info is None else [wire_leaf(x) for x in i.interface_info.interfaces.values()]}
 
 
@@ -198,7 +232,7 @@ def wire_svc(v):
 
 def wire_comp(c):
     r = R.load()
-    return {"n": c.resource_name, "p": wire_props(c), "s": c.resource_type == r.ComponentType.SmartNIC,
+    return {"n": c.resource_name, "p": wire_props(c), "t": type_name(c),
             "svcs": None if c.network_service_info is None else [wire_svc(x) for x in c.network_service_info.network_services.values()]}
 
 
@@ -310,7 +344,9 @@ APPLY = {"node": apply_node, "svc": apply_svc, "iface": apply_iface}
 
 
 def build_pair(case):
-    """(old, new): build, deep-copy, edit the copy"""
+    """(old, new): build, deep-copy, edit the copy; or two independently built slivers (`pair`)"""
+    if "pair" in case:
+        return MK[case["kind"]](case["pair"][0]), MK[case["kind"]](case["pair"][1])
     a = MK[case["kind"]](case["tree"])
     b = copy.deepcopy(a)
     APPLY[case["kind"]](a, b, case.get("script") or {})
@@ -325,7 +361,14 @@ def flag_int(f):
     return int(f.value)
 
 
-def observe(d):
+def flag_decode(f):
+    """which of the four kinds of change the flag *contains* (what a consumer of the diff tests), as 1/2/4/8 bits in the order
+    of FLAG_NAMES - independent of the integer values the enum happens to give its members"""
+    W = R.load().WhatsModifiedFlag
+    return sum(1 << i for i, nm in enumerate(FLAG_NAMES) if W[nm].value != 0 and (f & W[nm]) == W[nm])
+
+
+def observe(d, flag_int=flag_int):
     """canonical form of a TopologyDiff (or None): names sorted; modified as sorted [name, flagint]"""
     if d is None:
         return None
@@ -339,9 +382,11 @@ def observe(d):
     return out
 
 
-def run_diff(a, b):
+def run_diff(a, b, decode=False):
+    """decode=False: flags as the integer the library hands out (compared with the model, which uses the extracted member values);
+    decode=True: flags as the set of kinds they contain (what the oracle judges)"""
     try:
-        return ["ok", observe(a.diff(b))]
+        return ["ok", observe(a.diff(b), flag_decode if decode else flag_int)]
     except Exception as e:
         return ["err", err_kind(e)]
 
@@ -475,8 +520,119 @@ def exp_node(spec, sc, hidden):
     return e
 
 
+# ---- expectations for two independently built slivers: the statement read directly on the two specs
+#      (added / removed = key-set differences at every level the method reports on; for the survivors the tracked properties
+#      that differ, and SUB_INTERFACES for a dedicated port whose sub-interfaces differ / a SmartNIC whose service differs).
+#      Where the two sides disagree about the *type* of a child with the same name the statement says nothing about
+#      SUB_INTERFACES: such names are returned in `mask` and their SUB bit is not judged.
+
+
+def pd_specs(pa, pb):
+    out = set()
+    if canon_labels(pa[0]) != canon_labels(pb[0]):
+        out.add("LABELS")
+    if canon_caps(pa[1]) != canon_caps(pb[1]):
+        out.add("CAPACITIES")
+    if canon_ud(pa[2]) != canon_ud(pb[2]):
+        out.add("USER_DATA")
+    return out
+
+
+def pair_level(la, lb, flagf):
+    da, db = by_name(la), by_name(lb)
+    mods = []
+    for k in sorted(set(da) & set(db)):
+        f = flagf(da[k], db[k])
+        if f:
+            mods.append([k, fl(f)])
+    return sorted(set(db) - set(da)), sorted(set(da) - set(db)), mods
+
+
+def pair_iface(a, b):
+    e = dict(EMPTY)
+    me = pd_specs(a["p"], b["p"])
+    e["modified.services"] = [[a["n"], fl(me)]] if me else []
+    e["added.interfaces"], e["removed.interfaces"], e["modified.interfaces"] = pair_level(
+        a.get("subs"), b.get("subs"), lambda x, y: pd_specs(x["p"], y["p"]))
+    return e
+
+
+def pair_svc(a, b, mask):
+    e = dict(EMPTY)
+    me = pd_specs(a["p"], b["p"])
+    e["modified.services"] = [[a["n"], fl(me)]] if me else []
+
+    def flagf(x, y):
+        f = pd_specs(x["p"], y["p"])
+        if sub_changed(pair_iface(x, y)):
+            if x.get("t") == "DedicatedPort" and y.get("t") == "DedicatedPort":
+                f = f | {"SUB_INTERFACES"}
+            else:
+                # the two sides disagree about the kind, or sub-interfaces hang below a port that cannot have any: not judged
+                mask.add(("modified.interfaces", x["n"]))
+        return f
+    e["added.interfaces"], e["removed.interfaces"], e["modified.interfaces"] = pair_level(a.get("ifs"), b.get("ifs"), flagf)
+    return e
+
+
+def pair_node(a, b, mask):
+    e = dict(EMPTY)
+    me = pd_specs(a["p"], b["p"])
+    e["modified.nodes"] = [[a["n"], fl(me)]] if me else []
+
+    def cflag(x, y):
+        f = pd_specs(x["p"], y["p"])
+        if x.get("t") != y.get("t"):
+            mask.add(("modified.components", x["n"]))
+        elif x["t"] == "SmartNIC":
+            m2 = set()
+            below = pair_svc(x["svcs"][0], y["svcs"][0], m2)
+            if m2:
+                mask.add(("modified.components", x["n"]))
+            elif nonempty(below):
+                f = f | {"SUB_INTERFACES"}
+        return f
+    e["added.components"], e["removed.components"], e["modified.components"] = pair_level(a.get("comps"), b.get("comps"), cflag)
+    e["added.services"], e["removed.services"], e["modified.services"] = pair_level(
+        a.get("svcs"), b.get("svcs"), lambda x, y: pd_specs(x["p"], y["p"]))
+    return e
+
+
+def kind_collisions(case):
+    """names of components present on both sides of a pair of nodes with different types"""
+    if case["kind"] != "node":
+        return []
+    da, db = by_name(case["pair"][0].get("comps")), by_name(case["pair"][1].get("comps"))
+    return sorted(k for k in set(da) & set(db) if da[k].get("t") != db[k].get("t"))
+
+
+def expected_pair(case, mask):
+    k, (a, b) = case["kind"], case["pair"]
+    e = pair_node(a, b, mask) if k == "node" else pair_svc(a, b, mask) if k == "svc" else pair_iface(a, b)
+    return e if nonempty(e) else None
+
+
+def apply_mask(exp, obs, mask):
+    """copy the observed SUB_INTERFACES bit of the masked entries into the expectation (it is not judged there)"""
+    if not mask:
+        return exp
+    e = {k: [list(x) if isinstance(x, list) else x for x in v] for k, v in (exp or EMPTY).items()}
+    o = obs or EMPTY
+    for slot, name in mask:
+        fo = dict(map(tuple, o[slot])).get(name, 0) & 8
+        cur = dict(map(tuple, e[slot]))
+        f = (cur.get(name, 0) & ~8) | fo
+        cur.pop(name, None)
+        if f:
+            cur[name] = f
+        e[slot] = sorted([k, v] for k, v in cur.items())
+    return e if nonempty(e) else None
+
+
 def expected(case, hidden):
     k = case["kind"]
+    if "pair" in case:
+        return expected_pair(case, set())
     if k == "node":
         e = exp_node(case["tree"], case.get("script"), hidden)
     elif k == "svc":
@@ -531,11 +687,23 @@ def check_case(case, res):
     except Exception as e:
         raise RuntimeError("harness could not build case %s: %r" % (canon(case)[:300], e))
     hidden = []
-    exp = expected(case, hidden)
-    fwd = run_diff(a, b)
-    bwd = run_diff(b, a)
+    fwd = run_diff(a, b, decode=True)
+    bwd = run_diff(b, a, decode=True)
+    if "pair" in case:
+        mask = set()
+        exp = expected_pair(case, mask)
+        if fwd[0] == "ok":
+            exp = apply_mask(exp, fwd[1], mask)
+    else:
+        exp = expected(case, hidden)
     if fwd[0] == "err" or bwd[0] == "err":
-        bad("raises:" + (fwd[1] if fwd[0] == "err" else bwd[1]), "diff raised on well-formed slivers", observed=[fwd, bwd])
+        kind = fwd[1] if fwd[0] == "err" else bwd[1]
+        if "pair" in case and kind_collisions(case):
+            # a component that is a SmartNIC on one side and something else without a network service on the other
+            bad("kind-collision:raises:" + kind, "diff raised: a component has the same name but another type on the other side "
+                "(%s)" % ", ".join(kind_collisions(case)), observed=[fwd, bwd])
+        else:
+            bad("raises:" + kind, "diff raised on well-formed slivers", observed=[fwd, bwd])
         return 1
     obs = fwd[1]
     for slot, kind in compare(exp, obs):
@@ -568,7 +736,7 @@ def check_case(case, res):
         pass
     # a copy of either side compares equal to it
     for s, nm in ((a, "old"), (b, "new")):
-        r = run_diff(s, copy.deepcopy(s))
+        r = run_diff(s, copy.deepcopy(s), decode=True)
         if r != ["ok", None]:
             bad("self-copy" if r[0] == "ok" else "self-copy:raises:" + r[1],
                 "the %s sliver compared with a deep copy of itself reports a difference" % nm, expected=None, observed=r)
@@ -601,8 +769,15 @@ def g_leaf(rng, name):
     return {"n": name, "t": "SubInterface", "p": g_props(rng)}
 
 
+def type_names(enum):
+    """every member of ComponentType / InterfaceType as the library defines them now (so that a kind the source starts or
+    stops descending below is exercised whatever it is)"""
+    return [m.name for m in getattr(R.load(), enum)]
+
+
 def g_iface(rng, name, typ=None, allow_bad=False):
-    typ = typ or rng.choice(["DedicatedPort", "DedicatedPort", "SharedPort", "AccessPort", "TrunkPort"])
+    typ = typ or (rng.choice(["DedicatedPort", "DedicatedPort", "SharedPort", "AccessPort", "TrunkPort"]) if rng.random() < 0.7
+                  else rng.choice(type_names("InterfaceType")))
     s = {"n": name, "t": typ, "p": g_props(rng), "subs": None}
     if typ == "DedicatedPort" or allow_bad:
         k = rng.choice([None, 0, 1, 2, 3]) if typ == "DedicatedPort" else rng.choice([None, 1, 2])
@@ -621,9 +796,10 @@ def g_svc(rng, name, allow_bad=False, dedicated_bias=False):
 
 
 def g_comp(rng, name, allow_bad=False):
-    typ = rng.choice(["SmartNIC", "SmartNIC", "SharedNIC", "GPU", "NVME", "FPGA"])
+    typ = rng.choice(["SmartNIC", "SmartNIC", "SharedNIC", "GPU", "NVME", "FPGA"]) if rng.random() < 0.8 \
+        else rng.choice(type_names("ComponentType"))
     s = {"n": name, "t": typ, "p": g_props(rng), "svcs": None}
-    if typ in ("SmartNIC", "SharedNIC", "FPGA"):
+    if typ in ("SmartNIC", "SharedNIC", "FPGA") or (typ == "Storage" and rng.random() < 0.5):
         s["svcs"] = [g_svc(rng, name + "-ns", allow_bad, dedicated_bias=(typ == "SmartNIC"))]
     return s
 
@@ -794,6 +970,103 @@ def gen_cases(rng, n, hidden_ok=False):
     return out
 
 
+def gen_pairs(rng, n):
+    """two independently generated slivers over the same small name pools: same name with another type / other children /
+    missing vs empty *Info on either side - everything an edit script on a copy cannot produce"""
+    out = []
+    for i in range(n):
+        r = rng.random()
+        if r < 0.5:
+            a, b = g_node(rng), g_node(rng)
+            b["n"] = a["n"] if rng.random() < 0.8 else b["n"]
+            if rng.random() < 0.5 and a["comps"]:
+                # make the overlap likely: copy some children and perturb them
+                b["comps"] = [perturb_comp(rng, c) for c in a["comps"] if rng.random() < 0.8] + \
+                             [c for c in (b["comps"] or []) if c["n"] not in {x["n"] for x in a["comps"]}]
+            out.append({"kind": "node", "pair": [a, b]})
+        elif r < 0.8:
+            nm = "s%d" % rng.randrange(2)
+            a, b = g_svc(rng, nm, dedicated_bias=True), g_svc(rng, nm, dedicated_bias=True)
+            if rng.random() < 0.5 and a["ifs"]:
+                b["ifs"] = [perturb_iface(rng, x) for x in a["ifs"] if rng.random() < 0.8]
+            out.append({"kind": "svc", "pair": [a, b]})
+        else:
+            nm = "i%d" % rng.randrange(2)
+            a, b = g_iface(rng, nm, "DedicatedPort"), g_iface(rng, nm, "DedicatedPort")
+            out.append({"kind": "iface", "pair": [a, b]})
+    return out
+
+
+def perturb_iface(rng, x):
+    y = copy.deepcopy(x)
+    r = rng.random()
+    if r < 0.25:
+        y["t"] = rng.choice(type_names("InterfaceType"))          # same name, another kind
+        if y["t"] != "DedicatedPort":
+            y["subs"] = None
+    elif r < 0.5 and y["t"] == "DedicatedPort":
+        y["subs"] = rng.choice([None, [], [g_leaf(rng, "%s.%d" % (y["n"], j)) for j in range(rng.randrange(1, 3))]])
+    elif r < 0.7:
+        y["p"] = g_props(rng)
+    return y
+
+
+def perturb_comp(rng, c):
+    y = copy.deepcopy(c)
+    r = rng.random()
+    if r < 0.25:
+        t = rng.choice(type_names("ComponentType"))                # same name, another kind
+        y["t"] = t
+        if t == "SmartNIC" and not y["svcs"]:
+            y["svcs"] = [g_svc(rng, y["n"] + "-ns", dedicated_bias=True)]
+    elif r < 0.6 and y["svcs"]:
+        s0 = y["svcs"][0]
+        if s0["ifs"]:
+            s0["ifs"] = [perturb_iface(rng, x) for x in s0["ifs"] if rng.random() < 0.85]
+        if rng.random() < 0.2:
+            s0["n"] = s0["n"] + "x"                                # the first service under another name
+    elif r < 0.8:
+        y["p"] = g_props(rng)
+    return y
+
+
+def corner_pairs():
+    """deterministic pairs (run first)"""
+    P0 = [None, None, None]
+    leaf = lambda n, p=None: {"n": n, "t": "SubInterface", "p": p or P0}
+    ifc = lambda n, t, subs=None, p=None: {"n": n, "t": t, "p": p or P0, "subs": subs}
+    svc = lambda n, ifs=None, p=None: {"n": n, "t": "OVS", "p": p or P0, "ifs": ifs}
+    comp = lambda n, t, svcs=None, p=None: {"n": n, "t": t, "p": p or P0, "svcs": svcs}
+    node = lambda comps=None, svcs=None, p=None: {"n": "n1", "p": p or P0, "comps": comps, "svcs": svcs}
+    L = [{"vlan": "100"}, None, None]
+    out = []
+    # None vs present-but-empty vs filled, at every level, both orders come from the reverse run
+    for x, y in itertools.product([None, [], [leaf("pp.1")]], repeat=2):
+        out.append({"kind": "iface", "pair": [ifc("pp", "DedicatedPort", x), ifc("pp", "DedicatedPort", y)]})
+    for x, y in itertools.product([None, [], [ifc("qq", "SharedPort")]], repeat=2):
+        out.append({"kind": "svc", "pair": [svc("ss", x), svc("ss", y)]})
+    for x, y in itertools.product([None, [], [comp("gg", "GPU")]], repeat=2):
+        out.append({"kind": "node", "pair": [node(x, None), node(y, None)]})
+        out.append({"kind": "node", "pair": [node(None, x and [svc("ns")]), node(None, y and [svc("ns")])]})
+    # same name, other kind: a port that is dedicated on one side only, with sub-interfaces appearing / differing
+    for ta, tb in (("DedicatedPort", "SharedPort"), ("SharedPort", "DedicatedPort"), ("DedicatedPort", "DedicatedPort")):
+        out.append({"kind": "svc", "pair": [svc("ss", [ifc("pp", ta, [leaf("pp.1")] if ta == "DedicatedPort" else None)]),
+                                            svc("ss", [ifc("pp", tb, [leaf("pp.1", L)] if tb == "DedicatedPort" else None)])]})
+    nic = lambda t, ifs: comp("cc", t, [svc("cc-ns", ifs)])
+    for ta, tb in (("SmartNIC", "SharedNIC"), ("SharedNIC", "SmartNIC"), ("SmartNIC", "SmartNIC"), ("FPGA", "FPGA")):
+        out.append({"kind": "node", "pair": [node([nic(ta, [ifc("pp", "DedicatedPort")])]), node([nic(tb, [ifc("pp", "DedicatedPort", None, L)])])]})
+    # every kind of component / interface against itself with a change below it
+    for t in type_names("ComponentType"):
+        out.append({"kind": "node", "pair": [node([nic(t, [ifc("pp", "SharedPort")])]), node([nic(t, [ifc("pp", "SharedPort", None, L)])])]})
+    for t in type_names("InterfaceType"):
+        out.append({"kind": "svc", "pair": [svc("ss", [ifc("pp", t, [leaf("pp.1")])]), svc("ss", [ifc("pp", t, [leaf("pp.1", L)])])]})
+    # renamed (same children under new names) vs replaced
+    out.append({"kind": "node", "pair": [node([comp("g1", "GPU", None, L)]), node([comp("g2", "GPU", None, L)])]})
+    out.append({"kind": "svc", "pair": [svc("ss", [ifc("p1", "DedicatedPort", [leaf("xx")])]), svc("ss", [ifc("p2", "DedicatedPort", [leaf("xx")])])]})
+    out.append({"kind": "node", "pair": [node(None, None, L), dict(node(None, None, L), n="n2")]})
+    return out
+
+
 def count_edits(sc):
     """elementary edits of a script (any level)"""
     n = 0
@@ -915,8 +1188,9 @@ def correspondence(ctx, res, n=None):
     R.load()
     rng = ctx.sub_rng("corr")
     n = n or ctx.scale(500, 6000)
-    cases = corner_cases() + hidden_cases() + load_corpus() + gen_cases(rng, n, hidden_ok=True) + gen_malformed(rng, n // 4)
-    reqs, impl, meta = [], [], []
+    cases = corner_cases() + hidden_cases() + corner_pairs() + load_corpus() + gen_cases(rng, n, hidden_ok=True) + \
+        gen_malformed(rng, n // 4) + gen_pairs(rng, n // 2)
+    reqs, impl, meta = [["cfg"]], [None], [None]
     for c in cases:
         try:
             a, b = build_pair(c)
@@ -931,6 +1205,9 @@ def correspondence(ctx, res, n=None):
         reqs.append(request_of(c, b, copy.deepcopy(b)))
         impl.append(run_diff(b, copy.deepcopy(b)))
         meta.append(c)
+        if "pair" in c:
+            res.count("pairs")
+            continue
         # the Lean edit-script semantics against the real add_/remove_/set_ methods, and the report the Lean
         # theorems predict from the script (`expNode` …) against what the real diff returns
         wa, ws = WIRE[c["kind"]](a), W_SCRIPT[c["kind"]](c.get("script"))
@@ -943,11 +1220,15 @@ def correspondence(ctx, res, n=None):
             impl.append(d)
             meta.append(c)
     model = LeanDriver("C17").run([json.dumps(r) for r in reqs])
-    for r, i, m, c in zip(reqs, impl, model, meta):
+    # what the table the model runs on says (the Generated file of this run - or the baseline one after a fallback)
+    cfg = json.loads(model[0])[1]
+    res.count("cfg:" + canon(cfg))
+    flag_bits = [(nm, cfg["flagVal"].get(nm, 0)) for nm in FLAG_NAMES]
+    for r, i, m, c in list(zip(reqs, impl, model, meta))[1:]:
         res.evaluations += 1
         res.count("kind:" + r[0])
         if r[0] == "apply":
-            pass
+            i = ["ok", resolve_kinds(i[1], cfg)]
         elif i[0] == "err":
             res.count("err:" + i[1])
         elif i[1] is None:
@@ -959,15 +1240,15 @@ def correspondence(ctx, res, n=None):
                     res.count("slot:" + k)
                 if k.startswith("modified"):
                     for _, f in v:
-                        for j, nm in enumerate(FLAG_NAMES):
-                            if (f >> j) & 1:
+                        for nm, bit in flag_bits:
+                            if bit and f & bit == bit:
                                 res.count("flag:" + nm)
-        if count_edits(c.get("script")) >= 1:
+        if "pair" in c or count_edits(c.get("script")) >= 1:
             res.nontrivial.add(canon(r))
         mm = norm_for(r, m)
         if mm != i:
             res.disagreements.append({"case": {"request": r, "origin": c}, "impl": i, "model": mm})
-    if reqs:
+    if len(reqs) > 1:
         k = min(len(reqs) - 1, 120)
         res.sample({"request": reqs[k], "impl": impl[k], "model": norm_for(reqs[k], model[k])})
         res.sample({"request": reqs[-1], "impl": impl[-1], "model": norm_for(reqs[-1], model[-1])})
@@ -977,24 +1258,25 @@ def oracle(ctx, res, n=None):
     R.load()
     rng = ctx.sub_rng("oracle")
     n = n or ctx.scale(1500, 20000)
-    cases = load_corpus() + corner_cases() + hidden_cases() + gen_cases(rng, n)
+    cases = load_corpus() + corner_cases() + hidden_cases() + corner_pairs() + gen_cases(rng, n) + gen_pairs(rng, n // 3)
     for c in cases:
         res.evaluations += 1
         ne = count_edits(c.get("script"))
         res.count("kind:" + c["kind"])
-        res.count("edits:%s" % (ne if ne < 8 else "8+"))
-        if ne >= 1:
+        res.count("pair" if "pair" in c else "edits:%s" % (ne if ne < 8 else "8+"))
+        if ne >= 1 or "pair" in c:
             res.nontrivial.add(canon(c))
         if has_ud_both(c.get("script")):
             res.count("ud_both")
         check_case(c, res)
-    res.sample({"case": cases[-1], "expected": expected(cases[-1], []), "observed": run_diff(*build_pair(cases[-1]))})
+    res.sample({"case": cases[-1], "expected": expected(cases[-1], []), "observed": run_diff(*build_pair(cases[-1]), decode=True)})
 
 
 def search(ctx, res, broken):
     R.load()
     rng = ctx.sub_rng("search")
-    for c in corner_cases() + hidden_cases() + load_corpus() + gen_cases(rng, ctx.scale(15000, 100000), hidden_ok=True):
+    for c in corner_cases() + hidden_cases() + corner_pairs() + load_corpus() + gen_cases(rng, ctx.scale(15000, 100000), hidden_ok=True) + \
+            gen_pairs(rng, ctx.scale(5000, 30000)):
         res.evaluations += 1
         check_case(c, res)
 
